@@ -167,6 +167,7 @@ impl Scenario for Net1 {
         let ours = mk(cx);
         let theirs = mk(cx);
         let n2c = self.n2c;
+        let split = cx.ch.chance("split.propose", 1, 3);
         let pcfg = PipeCfg { stall: (cx.ch.draw("cfg.stall", 3), 8), short: (cx.ch.draw("cfg.short", 3), 4), ..Default::default() };
         cx.tr.ev("tables", &[ours.len() as u64, theirs.len() as u64, ours.iter().map(|x| x.0 * 31 + x.1).sum(), theirs.iter().map(|x| x.0 * 31 + x.1).sum()]);
         let o2: Vec<(u64, u64)> = ours.iter().map(|x| (x.0, x.1)).collect();
@@ -179,15 +180,25 @@ impl Scenario for Net1 {
             let mut pa = Plexer::new(bearer1(ra, wa));
             let mut pb = Plexer::new(bearer1(rb, wb));
             let (cch, sch) = (pa.subscribe_client(0), pb.subscribe_server(0));
+            let mut cch2 = Some(cch);
             let (ra_, rb_) = (pa.spawn(), pb.spawn());
             let conf: Result<Option<Result<(u64, u64), Option<Vec<u64>>>>, Violation> = if n2c {
                 let d = |v: u64, m: u64| hs::n2c::VersionData::new(m, match v { 0 => None, 1 => Some(false), _ => Some(true) });
                 let st = hs::n2c::VersionTable { values: ours.iter().map(|x| (x.0, d(x.2, x.1))).collect() };
                 let ct = hs::n2c::VersionTable { values: theirs.iter().map(|x| (x.0, d(x.2, x.1))).collect() };
                 let mut server = hs::N2CServer::new(sch);
-                let mut client = hs::N2CClient::new(cch);
                 let srv = tokio::spawn(chaos_auto(async move { server.handshake(st).await.map(|_| ()).map_err(|e| e.to_string()) }, &sh, (1, 8)));
-                let c = client.handshake(ct).await;
+                let c = if split {
+                    let cch2 = cch2.take().unwrap();
+                    match split_propose(&sh, cch2, crate::engines::net1::msgs::M1::HsC(hs::Message::Propose(ct)), crate::engines::net1::msgs::HSC).await {
+                        Ok(crate::engines::net1::msgs::M1::HsC(hs::Message::Accept(v, d))) => Ok(hs::Confirmation::Accepted(v, d)),
+                        Ok(crate::engines::net1::msgs::M1::HsC(hs::Message::Refuse(r))) => Ok(hs::Confirmation::Rejected(r)),
+                        Ok(other) => return Err(Violation::new("negotiation", "net1:split-proposal:unexpected-answer", other.render())),
+                        Err(v) => return Err(v),
+                    }
+                } else {
+                    hs::N2CClient::new(cch2.take().unwrap()).handshake(ct).await
+                };
                 let _ = srv.await;
                 match c {
                     Ok(hs::Confirmation::Accepted(v, data)) => {
@@ -210,9 +221,18 @@ impl Scenario for Net1 {
                 let st = hs::n2n::VersionTable { values: ours.iter().map(|x| (x.0, d(x.2, x.1))).collect() };
                 let ct = hs::n2n::VersionTable { values: theirs.iter().map(|x| (x.0, d(x.2, x.1))).collect() };
                 let mut server = hs::N2NServer::new(sch);
-                let mut client = hs::N2NClient::new(cch);
                 let srv = tokio::spawn(chaos_auto(async move { server.handshake(st).await.map(|_| ()).map_err(|e| e.to_string()) }, &sh, (1, 8)));
-                let c = client.handshake(ct).await;
+                let c = if split {
+                    let cch2 = cch2.take().unwrap();
+                    match split_propose(&sh, cch2, crate::engines::net1::msgs::M1::HsN(hs::Message::Propose(ct)), crate::engines::net1::msgs::HSN).await {
+                        Ok(crate::engines::net1::msgs::M1::HsN(hs::Message::Accept(v, d))) => Ok(hs::Confirmation::Accepted(v, d)),
+                        Ok(crate::engines::net1::msgs::M1::HsN(hs::Message::Refuse(r))) => Ok(hs::Confirmation::Rejected(r)),
+                        Ok(other) => return Err(Violation::new("negotiation", "net1:split-proposal:unexpected-answer", other.render())),
+                        Err(v) => return Err(v),
+                    }
+                } else {
+                    hs::N2NClient::new(cch2.take().unwrap()).handshake(ct).await
+                };
                 let _ = srv.await;
                 match c {
                     Ok(hs::Confirmation::Accepted(v, data)) => Ok(Some(Ok((v, data.network_magic)))),
@@ -234,6 +254,45 @@ impl Scenario for Net1 {
     }
 }
 
+/// A simulated initiator that delivers its `Propose` in several mux segments (legal for the multiplexer,
+/// never produced by pallas' own client): the encoding is cut at seeded offsets and every piece enqueued as
+/// its own chunk; the answer is read back with the real `recv_full_msg`.
+async fn split_propose(sh: &crate::engines::net1::Sh, mut ch: pallas_network::multiplexer::AgentChannel, propose: crate::engines::net1::msgs::M1, p: usize) -> Result<crate::engines::net1::msgs::M1, Violation> {
+    use crate::engines::net1::*;
+    let enc = propose.encode().map_err(|e| Violation::new("setup", "propose-encode", e))?;
+    let n = enc.len();
+    let mut cuts: Vec<usize> = vec![];
+    match draw(sh, "split.style", 4) {
+        0 => cuts.push(1 + draw(sh, "split.at", n as u64 - 1) as usize),
+        1 => cuts.extend(1..n.min(40)), // one byte per segment for the first bytes
+        2 => {
+            for _ in 0..(1 + draw(sh, "split.k", 4)) {
+                cuts.push(1 + draw(sh, "split.at", n as u64 - 1) as usize);
+            }
+        }
+        _ => cuts.extend([1, n - 1]),
+    }
+    cuts.push(n);
+    cuts.sort();
+    cuts.dedup();
+    inc(sh, "fault.proposal_split_across_segments");
+    let mut prev = 0;
+    for c in cuts {
+        if c <= prev || c > n {
+            continue;
+        }
+        ch.enqueue_chunk(enc[prev..c].to_vec()).await.map_err(|e| Violation::new("wire", "split-enqueue", e.to_string()))?;
+        prev = c;
+        pause(sh, "split.pause", 1, 2).await;
+    }
+    let mut b = pallas_network::multiplexer::ChannelBuffer::new(ch);
+    match tokio::time::timeout(std::time::Duration::from_secs(20), msgs::recv1(p, &mut b)).await {
+        Ok(Ok(m)) => Ok(m),
+        Ok(Err(e)) => Err(Violation::new("negotiation", "net1:split-proposal:no-decodable-answer", e.to_string())),
+        Err(_) => Err(Violation::new("negotiation", "net1:split-proposal:no-answer", "the responder did not answer a proposal delivered in several segments")),
+    }
+}
+
 pub fn def() -> CheckDef {
     CheckDef {
         prop: "C25",
@@ -243,7 +302,7 @@ pub fn def() -> CheckDef {
         real: vec!["pallas_network2 ResponderBehavior + HandshakeResponder::try_accept_handshake", "protocol::handshake::State::apply", "pallas_network handshake::{N2NClient,N2CClient}::handshake <-> handshake::{N2NServer,N2CServer}::handshake over two real Plexers"],
         stub: vec!["the initiator is a simulated peer proposing a seeded table", "Interface (events injected directly)"],
         assumptions: vec!["a refusal while a common version exists (e.g. magic mismatch at the highest common version) is allowed: the statement constrains acceptances and the disjoint case only"],
-        required: vec!["probe.accepted", "probe.disjoint_refused", "probe.refused_with_common_version"],
+        required: vec!["probe.accepted", "probe.disjoint_refused", "probe.refused_with_common_version", "fault.proposal_split_across_segments"],
         env_nondeterminism: "HashMap iteration order of both version tables (seeded through the getrandom shim); housekeeping/piggy-backed traffic around the proposal",
     }
 }
